@@ -526,8 +526,11 @@ impl LiveActor {
                 self.on_sync_finished(state.namespace, state.peer, Origin::Accept, Ok(state))
                     .await
             }
-            Err(AcceptError::Abort { reason, .. }) if reason == AbortReason::AlreadySyncing => {
-                // In case we aborted the sync: do nothing (our outgoing sync is in progress)
+            Err(AcceptError::Abort { reason, .. }) => {
+                // We declined this request ourselves (a sync with that peer is running already, the
+                // document is not being synced, ...): it never took the sync slot, so its result
+                // must not free the slot either. The result may arrive late, when another session
+                // with that peer holds the slot.
                 debug!(?reason, "aborted by us");
             }
             Err(err) => {
